@@ -97,19 +97,28 @@ AGED_PROBES = ['T154N-R97W Sec 14: NE/4',
 
 
 def aged_process_times(n_before):
-    """(text, CPU seconds in this fresh worker, CPU seconds after n_before parses under all kinds of settings)"""
+    """(text, CPU seconds in this fresh worker, CPU seconds after n_before parses under all kinds of settings); the ageing parses
+    are themselves timed and capped: a library that gets slower with every parse must not hang the check — the slow ageing parse
+    IS the observation"""
     import pytrs
     fresh = [timed_parse(t, hard=12.0) for t in AGED_PROBES]
-    cfgs = ['ocr_scrub', 'segment', 'clean_qq,parse_qq', 'sec_within', None, 'ocr_scrub,segment', 'sec_colon_cautious', 's,e', 'qq_depth.1,parse_qq']
+    cfgs = ['ocr_scrub', 'segment', 'ocr_scrub,clean_qq,parse_qq', 'sec_within', 'ocr_scrub', None, 'ocr_scrub,segment', 'sec_colon_cautious', 'ocr_scrub,s,e',
+            'qq_depth.1,parse_qq']
     texts = ['TI54N-R97W Sec 14: NE/4, Sec 15: W/2', 'Township 154 North, Range 97 West\nSection 1: Lots 1 - 3, S/2N/2', 'T154-R97 Sec 3: NE, N2']
+    first_seen = {}
+    slowed = []
     for i in range(n_before):
-        try:
-            d = pytrs.PLSSDesc(texts[i % len(texts)], config=cfgs[i % len(cfgs)])
-            d.parse(ocr_scrub=(i % 2 == 0), parse_qq=True)
-        except Exception:  # noqa
-            pass
+        key = (texts[i % len(texts)], cfgs[i % len(cfgs)])
+        t = timed_parse(key[0], hard=6.0, config=key[1])
+        first_seen.setdefault(key[0], t)
+        if t > SLOW and t > 3 * max(first_seen[key[0]], 0.05):
+            slowed.append((key[0], first_seen[key[0]], t, i))
+            break
     aged = [timed_parse(t, hard=12.0) for t in AGED_PROBES]
-    return [(t, a, b) for t, a, b in zip(AGED_PROBES, fresh, aged)]
+    out = [(t, a, b) for t, a, b in zip(AGED_PROBES, fresh, aged)]
+    for text, t0, t1, i in slowed:
+        out.append((f'{text}  [as parse number {i + 1} of the process]', t0, t1))
+    return out
 
 
 def build(prefix, unit, suffix, frac=1.0):
@@ -316,6 +325,18 @@ def run(ctx):
                           tag=known)
     rep.extra['slow_cases'] = slow[:40]
     rep.sample({'prefix': cases[1][0], 'unit': cases[1][1], 'suffix': cases[1][2]}, cap=2)
+    # an ordinary description stays fast in a process that has parsed a batch of other descriptions before (all settings in turn)
+    with mp.Pool(1) as pool:
+        aged = pool.apply(aged_process_times, (60 if not ctx.thorough else 150,))
+    for text, t_fresh, t_aged in aged:
+        rep.count()
+        rep.nontrivial(('aged', text))
+        if t_aged > SLOW and t_aged > 3 * max(t_fresh, 0.05):
+            rep.violation('failing-input', {'text': text, 'length': len(text), 'seconds_in_a_fresh_process': round(t_fresh, 3),
+                                            'seconds_after_a_batch_of_parses': round(t_aged, 3),
+                                            'why': 'parsing time of an ordinary description depends on what the process parsed before '
+                                                   '(exceeds 2 s after a batch of earlier parses)'})
+    rep.extra['aged_process'] = [[t[:60], round(a, 3), round(b, 3)] for t, a, b in aged]
     # structural repetition
     for k in ([6, 12, 24] if not ctx.thorough else [6, 12, 24, 36, 48]):
         for name, text in structural(k):
@@ -339,27 +360,17 @@ def run(ctx):
             for name, text in structural(k):
                 if len(text) > LIMIT + 60 or name in STRUCTURAL_KNOWN:
                     continue
-                t = timed_parse(text, hard=12.0, config=cfg)
+                with mp.Pool(1) as pool1:
+                    t = pool1.apply(timed_parse, (text, 12.0, cfg))
                 rep.count()
                 rep.nontrivial((name, k, cfg))
                 if t > SLOW:
-                    t2 = timed_parse(dict(structural(max(2, k // 2)))[name], hard=12.0, config=cfg)
+                    with mp.Pool(1) as pool1:
+                        t2 = pool1.apply(timed_parse, (dict(structural(max(2, k // 2)))[name], 12.0, cfg))
                     if t > 3 * max(t2, 1e-3):
                         rep.violation('failing-input', {'text': text[:400], 'length': len(text), 'config': cfg, 'family': ['structural', name, k],
                                                         'seconds': round(t, 2), 'seconds_at_half_size': round(t2, 2),
                                                         'why': f'structural repetition under config {cfg!r}: time exceeds 2 s and grows super-linearly'})
-    # an ordinary description stays fast in a process that has parsed a batch of other descriptions before (all settings in turn)
-    with mp.Pool(1) as pool:
-        aged = pool.apply(aged_process_times, (40 if not ctx.thorough else 120,))
-    for text, t_fresh, t_aged in aged:
-        rep.count()
-        rep.nontrivial(('aged', text))
-        if t_aged > SLOW and t_aged > 3 * max(t_fresh, 0.05):
-            rep.violation('failing-input', {'text': text, 'length': len(text), 'seconds_in_a_fresh_process': round(t_fresh, 3),
-                                            'seconds_after_a_batch_of_parses': round(t_aged, 3),
-                                            'why': 'parsing time of an ordinary description depends on what the process parsed before '
-                                                   '(exceeds 2 s after a batch of earlier parses)'})
-    rep.extra['aged_process'] = [[t[:60], round(a, 3), round(b, 3)] for t, a, b in aged]
     # the model's cost analysis is tied to the regenerated patterns by the build; the driver reports which patterns are Safe
     if ctx.driver is not None:
         out = ctx.driver.run(['rx.safe'])
